@@ -57,7 +57,9 @@ struct WireSrc {
 static void (*g_snk_intruder)(Ctx *) = nullptr; static int64_t g_snk_intrude_at = -1, g_snk_intrude_arg = 0; static uint64_t g_snk_calls = 0;
 struct WireSnk {
     Ctx *c = nullptr; Wire *w = nullptr; bool octet = false; uint64_t calls = 0;
+    int64_t err_at = -1; int err_code = EIO; uint64_t err_fired = 0;   // the channel fails once, at this sink call (a reply cannot be sent)
     ssize_t chunk(const void *buf, size_t n) { c->step_budget(); ++calls;
+        if (err_at >= 0 && (int64_t)calls - 1 >= err_at) { err_at = -1; ++err_fired; c->faults_fired++; COUNT("fault.reply_sink_error"); c->ev(EV_SNK_CALL, n, (uint64_t)(int64_t)-err_code, w->data.size()); return -err_code; }
         if (g_snk_intruder && (int64_t)g_snk_calls++ == g_snk_intrude_at) { void (*f)(Ctx *) = g_snk_intruder; g_snk_intruder = nullptr; f(c); } w->data.insert(w->data.end(), (const uint8_t *)buf, (const uint8_t *)buf + n); c->ev(EV_SNK_CALL, n, n, w->data.size()); return (ssize_t)n; }
     static ssize_t chunk_cb(void *d, const void *b, size_t n) { return ((WireSnk *)d)->chunk(b, n); }
     static int octet_cb(void *d, unsigned char ch) { return (int)((WireSnk *)d)->chunk(&ch, 1); }
@@ -184,6 +186,7 @@ struct Served {
     Bytes reply_wire; std::vector<Bytes> replies; bool reply_framing_ok = true;
     size_t live_after = 0; uint64_t unknown_free = 0;
     size_t allocs = 0;
+    bool snk_failed = false;     // the channel sink failed during this turn
 };
 
 static Served serve(Node &N, size_t payload_avail) {
@@ -191,6 +194,7 @@ static Served serve(Node &N, size_t payload_avail) {
     g_be = &N.be; N.be.avail_payload = payload_avail;
     size_t be0 = N.be.log.size(), out0 = N.out->data.size();
     uint64_t a0 = N.led.allocs, uf0 = N.led.unknown_free;
+    const uint64_t snk_failed_before = N.snk.err_fired;
     RPMaybeFrame &mf = N.mf;   // deliberately not cleared: whatever the previous iteration left behind is still in there
     const uint64_t budget = 16 * (N.in->data.size() - N.in->rpos) + 8 * N.led.bs + 512;
     S.recv_returned = WITH_BUDGET(c, budget, S.rc_recv = regp_recv(&N.p, &mf));
@@ -217,6 +221,7 @@ static Served serve(Node &N, size_t payload_avail) {
         if (S.proc_returned) regp_free(&N.p, mf.frame);
     }
     S.calls.assign(N.be.log.begin() + (long)be0, N.be.log.end()); S.be_calls = S.calls.size();
+    S.snk_failed = N.snk.err_fired != snk_failed_before;
     S.reply_wire.assign(N.out->data.begin() + (long)out0, N.out->data.end());
     S.reply_framing_ok = deframe(N.serial, S.reply_wire, S.replies);
     S.live_after = N.led.live.size(); S.unknown_free = N.led.unknown_free - uf0; S.allocs = (size_t)(N.led.allocs - a0);
@@ -293,7 +298,7 @@ struct RegpHarness : Harness {
         std::vector<std::string> v;
         if (p == "C06") { for (int k = 0; k < 12; ++k) { v.push_back("verdict_read_" + std::to_string(k)); v.push_back("verdict_write_" + std::to_string(k)); }
             for (const char *s : {"read_of_64k_octets_or_more", "pipelined_3_or_more", "sequence_wrap", "word_size_mismatch", "response_ignored", "meta_ignored", "mem8", "mem16", "serial", "tcp", "zero_block_size", "request_from_real_client", "register_table_verdict_mapped", "reception_failure_inside_session", "block_recycled_with_stale_content", "reply_received_and_ignored_by_client", "read_at_or_near_capacity"}) v.push_back(s); }
-        else if (p == "C07") for (const char *s : {"frame_of_64k_octets_or_more", "damage_beyond_64k_words", "idle_turn_after_a_frame", "flip1", "flip2", "burst", "truncate", "extend", "header_word_flip", "class_header_encoding", "class_header_crc", "class_payload_size", "class_payload_crc", "raw_accept", "raw_tcp", "option_plcrc_without_hdcrc", "odd_payload_ws16", "payload_fault_answered_with_error_response", "classified_from_fallback_buffer"}) v.push_back(s);
+        else if (p == "C07") for (const char *s : {"frame_of_64k_octets_or_more", "damage_beyond_64k_words", "idle_turn_after_a_frame", "reply_could_not_be_sent", "flip1", "flip2", "burst", "truncate", "extend", "header_word_flip", "class_header_encoding", "class_header_crc", "class_payload_size", "class_payload_crc", "raw_accept", "raw_tcp", "option_plcrc_without_hdcrc", "odd_payload_ws16", "payload_fault_answered_with_error_response", "classified_from_fallback_buffer"}) v.push_back(s);
         else if (p == "C08") { for (const char *s : {"payload_of_64k_octets_or_more", "channel_attached_again_mid_session", "req_read8", "req_read16", "req_write8", "req_write16", "resp_ack_payload", "resp_ack_empty", "resp_meta", "payload_with_slip_control_octets", "varint_prefix_2_octets", "sequence_wrap", "roundtrip_accepted"}) v.push_back(s);
             for (int k = 1; k < 12; ++k) v.push_back("resp_code_" + std::to_string(k)); }
         else for (const char *s : {"frame_of_64k_octets_or_more", "alloc_failure_with_parsable_header", "alloc_failure_without_parsable_header", "empty_frame", "short_frame", "frame_len_room_minus_1", "frame_len_room", "frame_len_room_plus_1", "rx_overflow", "read_at_limit_minus_1", "read_at_limit", "read_at_limit_plus_1", "tx_overflow", "channel_error_mid_frame", "odd_payload_ws16", "slab_allocator", "block_size_minimum", "served_after_fault", "illegal_slip_sequence_on_the_wire"}) v.push_back(s);
@@ -449,6 +454,7 @@ struct RegpHarness : Harness {
                     o["raw"] = hexs(b);
                     if (r.chance(1, 6)) o["allocfail"] = 1;
                     if (r.chance(1, 2)) o["idle"] = 1;
+                    if (r.chance(1, 5)) { Json se = Json::arr(); se.push((long long)r.below(12)); se.push((long long)r.below(4)); o["snkerr"] = se; }
                 }
                 ops.push(o);
             }
@@ -554,6 +560,18 @@ struct RegpHarness : Harness {
             c.fail(rule + "." + site, "%s frame %s (%s, mem%d, block %zu): %s", site.c_str(), hex_short(raw).c_str(), cf.serial ? "serial" : "tcp", cf.mt, cf.block, b);
         };
         if (!S.recv_returned || !S.proc_returned) { F("noprogress", "%s did not return within the step budget", S.recv_returned ? "regp_process" : "regp_recv"); return false; }
+        if (S.snk_failed) {
+            // the reply could not be sent (the channel sink failed once). What still holds: a frame that fails reception is never executed, whatever
+            // regp_recv returned and whatever the documented loop calls afterwards; every block is released exactly once
+            Frame f0; Verdict v0 = classify(raw, f0);
+            const bool early0 = x.alloc_failed || raw.size() > cf.block - sizeof(RPFrame);
+            COUNT("probe.reply_could_not_be_sent");
+            if ((v0 != V_ACCEPT || early0 || !f0.is_request()) && S.be_calls != 0) { F("executed", "frame classified %s%s caused %zu memory access(es) (the reply to it could not be sent)", verdict_name(v0), early0 ? " (early error)" : "", S.be_calls); return false; }
+            if (S.be_calls > 1) { F("accesscount", "%zu memory accesses for one frame", S.be_calls); return false; }
+            if (S.live_after != 0) { F("leak", "%zu allocator block(s) still held after recv; process; free (reply sink failed)", S.live_after); return false; }
+            if (S.unknown_free) { F("badfree", "a pointer that is not a live allocator block was released"); return false; }
+            return true;
+        }
         if (S.rc_recv < 0) { F("recv", "regp_recv returned %d on a fault-free channel", S.rc_recv); return false; }
         if (S.rc_proc < 0) { F("process", "regp_process returned %d", S.rc_proc); return false; }
         if (S.live_after != 0) { F("leak", "%zu allocator block(s) still held after recv; process; free", S.live_after); return false; }
@@ -763,6 +781,7 @@ struct RegpHarness : Harness {
                 { Json none = Json::arr(); srv.led.fail.load(none); }   // an allocation failure scripted for an earlier frame that never allocated does not carry over
                 if (alloc_fails) { Json one = Json::arr(); one.push(1); srv.led.fail.load(one); }
                 load_frag(srv.src, plan);
+                if (o.has("snkerr") && !strcmp(site, "raw")) { srv.snk.err_at = (int64_t)srv.snk.calls + (o.get("snkerr").ati(0, 0) & 31); srv.snk.err_code = HARD_ERRORS[(size_t)(o.get("snkerr").ati(1, 0) & 3)]; }
                 Bytes w = frame_on(cf.serial, raw); c2s.data = w;
                 c.set_pin(use_shared ? "" : pin.str());
                 Frame f; Verdict v = classify(raw, f);
